@@ -706,6 +706,43 @@ func validateStructOrMap(t reflect.Type) bool {
 	}
 }
 
+// validateStaticValues checks at compile time that every static value of a node can be put at its path of the
+// node's input: at request time convertTo must succeed on them.
+func validateStaticValues(successorType reflect.Type, values map[string]any) error {
+	if successorType == nil {
+		// a passthrough node whose type has not been inferred yet
+		return nil
+	}
+
+	for path, value := range values {
+		fieldPath := splitFieldPath(path)
+		fieldType, intermediateInterface, err := checkAndExtractFieldType(fieldPath, successorType)
+		if err != nil {
+			return fmt.Errorf("static check failed for static value at %v: %w", fieldPath, err)
+		}
+
+		if intermediateInterface {
+			if fieldType != reflect.TypeOf((*any)(nil)).Elem() {
+				return fmt.Errorf("static check failed for static value at %v, the input has intermediate interface type %v", fieldPath, fieldType)
+			}
+			continue // at request time this 'any' is expanded to 'map[string]any'
+		}
+
+		valueType := reflect.TypeOf(value)
+		if valueType == nil {
+			switch fieldType.Kind() {
+			case reflect.Map, reflect.Slice, reflect.Ptr, reflect.Interface:
+			default:
+				return fmt.Errorf("static check failed for static value at %v, nil is not assignable to %v", fieldPath, fieldType)
+			}
+		} else if !valueType.AssignableTo(fieldType) {
+			return fmt.Errorf("static check failed for static value at %v, field[%v]-[%v] is absolutely not assignable", fieldPath, valueType, fieldType)
+		}
+	}
+
+	return nil
+}
+
 func validateFieldMapping(predecessorType reflect.Type, successorType reflect.Type, mappings []*FieldMapping) (*handlerPair, error) {
 	var fieldCheckers = make(map[string]handlerPair)
 
